@@ -167,6 +167,21 @@ def run(case: dict, ctx) -> dict:
 
     if not res["viol"]:
         again("immediately")
+    if not res["viol"]:
+        # one object, several attempts: rejected passphrases first, then the right one
+        vr = VMX.parse(make(where=where))
+        snap_r = copy.deepcopy(vr.attr)
+        for wp in rng.sample([phrase + "x", "", phrase[:-1] or "q", phrase.swapcase() if phrase.swapcase() != phrase else phrase + "1"], k=rng.choice([1, 2])):
+            ow = call(vr.unlock_with_phrase, wp)
+            if ow.ok:
+                res["viol"].append({"what": "unlock succeeded with a wrong passphrase", "mech": "vmx.auth", "detail": {"combo": combo, "right": phrase, "used": wp}})
+            elif vr.attr != snap_r:
+                res["viol"].append({"what": "visible configuration changed although unlock failed", "mech": "vmx.auth", "detail": {"combo": combo}})
+        orr = call(vr.unlock_with_phrase, phrase)
+        cnt["retry_on_same_object_roundtrips"] = 1
+        if not res["viol"] and (not orr.ok or any(vr.attr.get(k_) != val for k_, val in model.items())):
+            res["viol"].append({"what": "the correct passphrase does not unlock an object on which a wrong passphrase was tried before", "mech": MECH,
+                                "detail": {"combo": combo, "outcome": orr.brief()}})
     # ---- the same locator parameters (id, KDF, cipher, rounds, passphrase) with other salts, in this same process:
     # the derived key is a function of the salt too
     for salt2 in (bytes(rng.randrange(256) for _ in range(len(salt))), salt[:-1] + bytes([salt[-1] ^ 0x01]), salt + b"\x00"):
